@@ -7,7 +7,7 @@
      parrec <mm> <shape> <nrec> <ind> <w> <ix>
      ecat <mm> <shape3> <nfr> <w> <fmap> <gap> <ix>      (record j at element offset j*(M+gap))
      ecatfull <mm> <shape3> <nfr> <w> <fmap> <gap>
-     minc <shape> <nscales> <ix>      mincfull <shape> <nscales>
+     minc <shape> <nscales> <isfloat> <ix>      mincfull <shape> <nscales>
      reshape <shape> <newshape>
    Result: ok <shape> <elem indices> <factor indices> | err <enum>
    Bit-exact element arithmetic (ModelS.v).  dtype tokens: I<signed 0|1>:<bits> | F<0..3> (float16/32/64/longdouble);
@@ -105,11 +105,11 @@ let handle op args = match op, args with
     (match op, rest with
      | "ecat", [ix] -> out (ecat_getitem (file_reader file) scale dF dR (bool_of_string mm) shape3 nfr w fmap foffs facs (parse_ix ix))
      | _ -> out (ecat_full (file_reader file) scale dF (bool_of_string mm) shape3 nfr w fmap foffs facs))
-  | "minc", [shape; nscales; ix] ->
+  | "minc", [shape; nscales; isf; ix] ->
     let shape = zlist_of_string shape and ns = z_of_string nscales in
     let elems = List.map (enc_be (nat_of_int 4)) (zseq (shape_size shape)) in
     let facs = zrange (shape_size (take_n (int_of_z ns) shape)) in
-    out (minc_getitem scale dF shape ns elems facs (parse_ix ix))
+    out (minc_getitem scale noscale dF (bool_of_string isf) shape ns elems facs (parse_ix ix))
   | "mincfull", [shape; nscales] ->
     let shape = zlist_of_string shape and ns = z_of_string nscales in
     let elems = List.map (enc_be (nat_of_int 4)) (zseq (shape_size shape)) in
